@@ -721,6 +721,18 @@ func (w *Writer) batchMessages(messages []Message, assignments map[topicPartitio
 		}
 	}
 
+	if w.closed {
+		// Close was called after this operation entered the writer and has
+		// already closed and removed the partition writers it knew about. The
+		// writers created above would otherwise never be closed: their pending
+		// batches must be flushed and their goroutines stopped so that Close,
+		// which waits for this operation, can return.
+		for key, writer := range w.writers {
+			writer.close()
+			delete(w.writers, key)
+		}
+	}
+
 	return batches
 }
 
